@@ -323,7 +323,9 @@ func (w *World) checkLayout(afterGC bool) {
 		return // pre-seeded (possibly corrupt or legacy) directories and faulted runs are not judged as layouts here
 	}
 	for _, repo := range w.allRepoNames() {
-		w.checkRepoLayout(repo, afterGC)
+		if !w.tainted[repo] {
+			w.checkRepoLayout(repo, afterGC)
+		}
 	}
 }
 
@@ -444,7 +446,15 @@ func (w *World) checkRepoLayout(repo string, afterGC bool) {
 			continue
 		}
 		if _, ok := blobFiles[d]; !ok {
-			w.x.viol([]string{"C10"}, "layout.api-mismatch", "manifest blob missing", fmt.Sprintf("%s: manifest %s is present per the API history but has no blob file", repo, d))
+			note := ""
+			if why := mr.causeOf(d); why != "" {
+				note = " [" + why + "]"
+			}
+			w.x.viol([]string{"C10"}, "layout.api-mismatch", "manifest blob missing"+note, fmt.Sprintf("%s: manifest %s is present per the API history but has no blob file%s", repo, d, note))
+			if note != "" {
+				mr.resyncOrphans()
+				w.x.resync()
+			}
 		}
 	}
 }
@@ -551,7 +561,19 @@ func (w *World) opRestart() {
 			if len(diffs) > 0 {
 				sort.Strings(diffs)
 				kind, _, _ := strings.Cut(diffs[0], " ")
-				w.x.viol([]string{"C10"}, "restart.answer-changed", kind+" "+shapeOfChange(diffs[0]), fmt.Sprintf("%s: answers changed across a clean restart: %s", r, strings.Join(diffs, "; ")))
+				note := ""
+				if _, dg, ok := strings.Cut(strings.SplitN(diffs[0], ": ", 2)[0], " "); ok {
+					if why := mr.causeOf(dg); why != "" {
+						note = " [" + why + "]"
+					} else if _, present := mr.mans[dg]; !present && mr.isChildOfPresent(dg) {
+						note = " [deleted manifest still listed as child by a present index]"
+					}
+				}
+				if note != "" {
+					mr.resyncOrphans()
+					defer w.x.resync()
+				}
+				w.x.viol([]string{"C10"}, "restart.answer-changed", kind+" "+shapeOfChange(diffs[0])+note, fmt.Sprintf("%s: answers changed across a clean restart: %s", r, strings.Join(diffs, "; ")))
 			}
 		}
 	}
